@@ -196,6 +196,10 @@ where
     }
 }
 
+pub fn hex_str(s: &str) -> String {
+    s.as_bytes().iter().map(|b| format!("{:02x}", b)).collect()
+}
+
 fn wb(b: bool, out: &mut Vec<String>) {
     out.push(if b { "T".into() } else { "F".into() })
 }
@@ -203,7 +207,7 @@ fn wb(b: bool, out: &mut Vec<String>) {
 /// operations available on every DualNum type
 fn run_dual<D, F>(op: &str, aux: &[&str], a: &[D]) -> Vec<String>
 where
-    D: DualNum<F> + Probe<F = F>,
+    D: DualNum<F> + Probe<F = F> + std::fmt::Display,
     F: FBits,
 {
     let mut out = vec![];
@@ -235,6 +239,7 @@ where
         "atan2" => a[0].atan2(y()).wr(o),
         "mul_add" => a[0].mul_add(y(), a[2].clone()).wr(o),
         "re" => o.push(a[0].re().wrf()),
+        "display" => o.push(format!("s{}", hex_str(&format!("{}", a[0])))),
         "nderiv" => o.push(format!("i{}", D::NDERIV)),
         "abs" => Signed::abs(&a[0]).wr(o),
         "signum" => Signed::signum(&a[0]).wr(o),
@@ -339,7 +344,7 @@ macro_rules! ref_forms {
 
 fn run_refs<D, F>(op: &str, a: &[D]) -> Option<Vec<String>>
 where
-    D: DualNum<F> + Probe<F = F> + 'static,
+    D: DualNum<F> + Probe<F = F> + std::fmt::Display + 'static,
     F: FBits,
     for<'x> &'x D: std::ops::Add<&'x D, Output = D>
         + std::ops::Sub<&'x D, Output = D>
@@ -355,7 +360,7 @@ where
     let mut out = vec![];
     fn inner<D, F>(op: &str, a: &[D], out: &mut Vec<String>) -> Option<()>
     where
-        D: DualNum<F> + Probe<F = F> + 'static,
+        D: DualNum<F> + Probe<F = F> + std::fmt::Display + 'static,
         F: FBits,
         for<'x> &'x D: std::ops::Add<&'x D, Output = D>
             + std::ops::Sub<&'x D, Output = D>
@@ -375,7 +380,7 @@ where
 
 fn case_dual<D, F>(op: &str, aux: &[&str], operands: &[Vec<&str>]) -> Vec<String>
 where
-    D: DualNum<F> + Probe<F = F> + 'static,
+    D: DualNum<F> + Probe<F = F> + std::fmt::Display + 'static,
     F: FBits,
     for<'x> &'x D: std::ops::Add<&'x D, Output = D>
         + std::ops::Sub<&'x D, Output = D>
